@@ -1,5 +1,6 @@
 import FV.Proofs.RectSearch
 import FV.Props.C07
+import FV.Model.RectSat
 import Mathlib.Tactic.Ring
 import Std.Data.String.ToNat
 /-
@@ -23,19 +24,8 @@ set_option linter.unusedSimpArgs false
 
 variable {α : Type} (nm : RectSearch.Var α → String)
 
-def trVar (v : RectSearch.Var α) : Sat.Var := .user (nm v)
-def trLit (l : RectSearch.Lit α) : Sat.Lit := ⟨trVar nm l.v, l.s⟩
-
 /-- the assignment of the C08 variables induced by an assignment of the SAT-layer variables -/
 def pull (τ : Sat.Var → Bool) : RectSearch.Assign α := fun v => τ (trVar nm v)
-
-/-- `Expr() + l₁ + … + lₙ` -/
-def sumLits (ls : List Sat.Lit) : Expr Sat.Var := ls.foldl (fun e l => e.add (.lit l)) ⟨0, []⟩
-/-- `Expr() + l₁ * c₁ + … + lₙ * cₙ` -/
-def linExpr (ts : List (Int × Sat.Lit)) : Expr Sat.Var :=
-  ts.foldl (fun e t => e.add (.term (t.2.mul (.int t.1)))) ⟨0, []⟩
-/-- `e >= k`, i.e. `Expr.__ge__`: `Ineq(e, Expr() + k, ">=")` -/
-def geIneq (e : Expr Sat.Var) (k : Int) : Ineq Sat.Var := Ineq.make e ((⟨0, []⟩ : Expr Sat.Var).add (.num (.int k))) .ge
 
 def trC : RectSearch.Constr α → Sat.Post
   | .clause ls => .clause (ls.map (trLit nm))
@@ -172,14 +162,6 @@ theorem trC_holds (τ : Sat.Var → Bool) (c : RectSearch.Constr α) :
 
 /-! ### the objective, built as `solve` builds it -/
 
-/-- `selarea` / `realarea`: `Expr() + b_0 * int(area 0) + b_1 * int(area 1) + …` -/
-def areaExpr (P : RectSearch.Problem α) (A : List Int) : Expr Sat.Var :=
-  linExpr (P.C.blocks.map fun b => (A.getD b 0, (⟨trVar nm (.sel b), true⟩ : Sat.Lit)))
-
-/-- `obj >= dif[0]` with `obj = ratio * selarea - realarea` -/
-def objIneq (P : RectSearch.Problem α) (ratio dif0 : Int) : Ineq Sat.Var :=
-  geIneq (((areaExpr nm P P.selA).mul (.int ratio)).sub (.expr (areaExpr nm P P.realA))) dif0
-
 theorem mul_vars (P : Sat.Var → Prop) {e : Expr Sat.Var} (n : Num) (h : ∀ y ∈ e.t, P y.L.v) :
     ∀ y ∈ (e.mul n).t, P y.L.v := by
   intro y hy
@@ -203,6 +185,7 @@ theorem areaExpr_eval (τ : Sat.Var → Bool) (P : RectSearch.Problem α) (A : L
   congr 1
 
 theorem objIneq_wf (P : RectSearch.Problem α) (ratio dif0 : Int) : (Sat.Post.pb (objIneq nm P ratio dif0) false).WF := by
+  unfold objIneq objExpr
   refine geIneq_wf _ _ (Expr.nf_sub _ (Expr.nf_mul _ (areaExpr_nf nm P _))) ?_
   exact foldl_subTerm_vars Sat.isUser _ (mul_vars Sat.isUser _ (areaExpr_vars nm P _)) (areaExpr_vars nm P _)
 
@@ -217,10 +200,11 @@ theorem sum_obj (X : Nat → Bool) (s q : Nat → Int) (r : Int) : ∀ l : List 
     cases X b <;> simp
     all_goals ring
 
-theorem objIneq_holds (τ : Sat.Var → Bool) (P : RectSearch.Problem α) (ratio dif0 : Int) :
-    (objIneq nm P ratio dif0).holds τ ↔ dif0 ≤ RectSearch.pbSum (pull nm τ) (RectSearch.objTerms P ratio) := by
-  unfold objIneq
-  rw [geIneq_holds, Expr.eval_sub, Expr.eval_mul]
+/-- the value of `obj = ratio * selarea - realarea` under an assignment is the weighted sum of the selected blocks -/
+theorem objExpr_eval (τ : Sat.Var → Bool) (P : RectSearch.Problem α) (ratio : Int) :
+    (objExpr nm P ratio).eval τ = RectSearch.pbSum (pull nm τ) (RectSearch.objTerms P ratio) := by
+  unfold objExpr
+  rw [Expr.eval_sub, Expr.eval_mul]
   simp only [Operand.val, Num.toInt, areaExpr_eval]
   rw [sum_obj (fun b => τ (trVar nm (.sel b))) (fun b => P.selA.getD b 0) (fun b => P.realA.getD b 0) ratio]
   unfold RectSearch.pbSum RectSearch.objTerms RectSearch.Problem.weight
@@ -232,6 +216,22 @@ theorem objIneq_holds (τ : Sat.Var → Bool) (P : RectSearch.Problem α) (ratio
     intro b _
     simp only [Function.comp, RectSearch.eval_pos, pull]
   rw [this]
+
+theorem objIneq_holds (τ : Sat.Var → Bool) (P : RectSearch.Problem α) (ratio dif0 : Int) :
+    (objIneq nm P ratio dif0).holds τ ↔ dif0 ≤ RectSearch.pbSum (pull nm τ) (RectSearch.objTerms P ratio) := by
+  unfold objIneq
+  rw [geIneq_holds, objExpr_eval]
+
+/-- every variable of `selarea` / `realarea` / `obj` is one of the `b_<b>` variables of the blocks -/
+theorem areaExpr_sel (P : RectSearch.Problem α) (A : List Int) :
+    ∀ y ∈ (areaExpr nm P A).t, ∃ b ∈ P.C.blocks, y.L.v = trVar nm (.sel b) :=
+  foldl_term_vars (fun v => ∃ b ∈ P.C.blocks, v = trVar nm (.sel b)) _ _ (by simp) (by
+    intro t ht; obtain ⟨b, hb, rfl⟩ := List.mem_map.1 ht; exact ⟨b, hb, rfl⟩)
+
+theorem objExpr_sel (P : RectSearch.Problem α) (ratio : Int) :
+    ∀ y ∈ (objExpr nm P ratio).t, ∃ b ∈ P.C.blocks, y.L.v = trVar nm (.sel b) :=
+  foldl_subTerm_vars (fun v => ∃ b ∈ P.C.blocks, v = trVar nm (.sel b)) _
+    (mul_vars (fun v => ∃ b ∈ P.C.blocks, v = trVar nm (.sel b)) _ (areaExpr_sel nm P _)) (areaExpr_sel nm P _)
 
 /-! ### everything `solve` posts, and posting it -/
 section Posts
@@ -353,19 +353,6 @@ theorem trLit_not (l : RectSearch.Lit α) : trLit nm l.not = (trLit nm l).neg :=
 
 /-! ### the variable names of `rect.py` -/
 section Naming
-
-def dirName : RectSearch.Dir → String
-  | .north => "north" | .south => "south" | .east => "east" | .west => "west"
-
-/-- the names `enforce_bb` / `solve` hand to `sm.newvar(name, "")`; `str` is Python's `str` on coordinates -/
-def pyName (str : α → String) : RectSearch.Var α → String
-  | .sel b => "b_" ++ toString b
-  | .cell i b => "b" ++ toString i ++ "_" ++ toString b
-  | .lilx i x => "b" ++ toString i ++ "_x_" ++ str x
-  | .bigx i x => "b" ++ toString i ++ "_X_" ++ str x
-  | .lily i y => "b" ++ toString i ++ "_y_" ++ str y
-  | .bigy i y => "b" ++ toString i ++ "_Y_" ++ str y
-  | .dir i d => "b" ++ toString i ++ "_" ++ dirName d
 
 abbrev D (n : Nat) : List Char := Nat.toDigits 10 n
 
@@ -517,5 +504,69 @@ def postVars : Sat.Post → List Sat.Var
 
 /-- a manager in which every variable of the postings `ps` is registered and nothing is posted yet -/
 def registered (ps : List Sat.Post) : Sat.Mgr := { vars := (ps.flatMap postVars).eraseDups }
+
+/-! ### the value `solve` returns, read off `value()` / `evalexpr()` -/
+section Return
+variable [LinearOrder α]
+
+theorem foldl_congr_mem {β γ : Type} (f g : β → γ → β) : ∀ (l : List γ) (init : β),
+    (∀ a ∈ l, ∀ acc, f acc a = g acc a) → l.foldl f init = l.foldl g init
+  | [], _, _ => rfl
+  | a :: r, init, h => by
+    simp only [List.foldl_cons]
+    rw [h a (by simp) init]
+    exact foldl_congr_mem f g r _ (fun x hx acc => h x (by simp [hx]) acc)
+
+theorem mem_cellsOf_block {C : RectSearch.Coords α} {ip : List (RectSearch.Cell α)} {bc : Nat × RectSearch.Cell α}
+    (h : bc ∈ RectSearch.cellsOf C ip) : bc.1 ∈ C.blocks := by
+  simp only [RectSearch.cellsOf, List.mem_filterMap] at h
+  obtain ⟨b, hb, hx⟩ := h
+  cases hc : ip[b]? with
+  | none => simp [hc] at hx
+  | some c => simp [hc] at hx; rw [← hx]; exact hb
+
+/-- `value` agrees with the assignment `τ` on the variables `b_<b>`, `b<i>_<b>` of the blocks, in both polarities -/
+def ValAgrees (m : Sat.Mgr) (τ : Sat.Var → Bool) (P : RectSearch.Problem α) : Prop :=
+  ∀ b ∈ P.C.blocks, (∀ s, m.value ⟨trVar nm (.sel b), s⟩ = some (litVal τ ⟨trVar nm (.sel b), s⟩)) ∧
+    ∀ i s, m.value ⟨trVar nm (.cell i b), s⟩ = some (litVal τ ⟨trVar nm (.cell i b), s⟩)
+
+theorem bboxFromMgr_eq {m : Sat.Mgr} {τ : Sat.Var → Bool} {P : RectSearch.Problem α} (h : ValAgrees nm m τ P) (i : Nat) :
+    bboxFromMgr nm m P.C P.ip i = RectSearch.bboxOf P.C P.ip (pull nm τ) i := by
+  unfold bboxFromMgr RectSearch.bboxOf
+  apply foldl_congr_mem
+  intro bc hbc acc
+  have hv := (h bc.1 (mem_cellsOf_block hbc)).2 i true
+  have h1 : (m.value ⟨trVar nm (.cell i bc.1), true⟩ = some 1) ↔ pull nm τ (.cell i bc.1) = true := by
+    rw [Sat.value_one_iff hv]; simp [litTrue, pull]
+  by_cases hc : pull nm τ (.cell i bc.1) = true
+  · rw [if_pos (h1.2 hc), if_pos hc]
+  · rw [if_neg (fun hh => hc (h1.1 hh)), if_neg hc]
+
+theorem evalExpr_of_sel {m : Sat.Mgr} {τ : Sat.Var → Bool} {P : RectSearch.Problem α} (h : ValAgrees nm m τ P)
+    (e : Expr Sat.Var) (he : ∀ y ∈ e.t, ∃ b ∈ P.C.blocks, y.L.v = trVar nm (.sel b)) : m.evalExpr e = some (e.eval τ) := by
+  apply Sat.evalExpr_spec
+  intro t ht
+  obtain ⟨b, hb, hv⟩ := he t ht
+  have := (h b hb).1 t.L.s
+  rw [← hv] at this
+  cases hL : t.L with
+  | mk v s => rw [hL] at this; exact this
+
+/-- when `value` comes from an assignment, what `solve` returns is what the clause-level model returns for it -/
+theorem solveReturn_eq {m : Sat.Mgr} {τ : Sat.Var → Bool} {P : RectSearch.Problem α} (h : ValAgrees nm m τ P)
+    (ratio : Int) (k : Nat) :
+    solveReturn nm P ratio k true m =
+      .found (RectSearch.pbSum (pull nm τ) (RectSearch.objTerms P ratio) + 1)
+        ((List.range k).map fun i => RectSearch.bboxOf P.C P.ip (pull nm τ) i) := by
+  unfold solveReturn
+  rw [evalExpr_of_sel nm h _ (areaExpr_sel nm P _), evalExpr_of_sel nm h _ (areaExpr_sel nm P _),
+    evalExpr_of_sel nm h _ (objExpr_sel nm P ratio), objExpr_eval]
+  simp only [Bool.true_eq_false, if_false]
+  congr 1
+  apply List.map_congr_left
+  intro i _
+  exact bboxFromMgr_eq nm h i
+
+end Return
 
 end FV.RectSat
